@@ -85,7 +85,7 @@ class Lock:
 EXPECTED = [f"{c}.{'bin' if c == 'jaq' else 'lib'}.{k}.json" for c in FIRST_PARTY for k in ("hir", "mir", "items")] + ["jaq.bin.mono.json"]
 
 
-def facts_dir(config="default", cargo_args=None, rustflags=None, repo=None):
+def facts_dir(config="default", cargo_args=None, rustflags=None, repo=None, extra_env=None):
     """Return the directory with the facts of the current working tree of /repo, extracting
     them (one cargo check with the driver injected, in a fresh target dir) when the tree
     changed. Every check therefore analyses the *current* tree."""
@@ -110,6 +110,7 @@ def facts_dir(config="default", cargo_args=None, rustflags=None, repo=None):
         env = dict(os.environ)
         if rustflags:
             env["JAQLINT_RUSTFLAGS"] = rustflags
+        env.update(extra_env or {})
         t0 = time.time()
         r = sh([os.path.join(VERIF, "bin", "extract.sh"), repo, tmp] + (cargo_args or []), env=env)
         if r.returncode != 0:
@@ -125,6 +126,8 @@ def facts_dir(config="default", cargo_args=None, rustflags=None, repo=None):
 
 
 def expected_for(config):
+    if config == "example-main":
+        return ["main.bin.mono.json"]
     if config.startswith("fixtures"):
         return ["jaqlint_fixtures.bin.hir.json", "jaqlint_fixtures.bin.mir.json", "jaqlint_fixtures.bin.items.json", "jaqlint_fixtures.bin.mono.json"]
     return EXPECTED
@@ -278,6 +281,29 @@ class Overlay(Facts):
 
 CONTROL_MODE = False
 CONTROL_RESULTS = []
+ALT_RESULTS = []
+ALT_MODE = False
+ALT_CONFIGS = {
+    # same sources, release-like code generation: the rules must reach the same verdicts
+    # (they look at the operations, not at the overflow asserts / debug assertions)
+    "nochecks": {"rustflags": "-Zmir-opt-level=0 -Awarnings -Coverflow-checks=off -Cdebug-assertions=off -Zalways-encode-mir"},
+}
+
+
+def run_alt_configs(pid, module, tier):
+    """thorough tier: evaluate the same rules on the facts of alternative build configurations."""
+    global CONTROL_MODE
+    if tier != "thorough":
+        return
+    for name, cfg in ALT_CONFIGS.items():
+        d = facts_dir(config=name, rustflags=cfg["rustflags"])
+        global ALT_MODE
+        CONTROL_MODE = ALT_MODE = True
+        try:
+            vs = module.run(Facts(d), tier)
+        finally:
+            CONTROL_MODE = ALT_MODE = False
+        ALT_RESULTS.append({"config": name, "violations": vs})
 
 
 def run_controls(pid, module, facts, tier):
@@ -294,7 +320,7 @@ def run_controls(pid, module, facts, tier):
         fx = json.load(open(os.path.join(VERIF, "fixtures", c["fixture"])))
         CONTROL_MODE = True
         try:
-            fired = module.run(Overlay(facts, fx), tier)
+            fired = {v.rule for v in module.run(Overlay(facts, fx), tier)}
         finally:
             CONTROL_MODE = False
         want = c["expect"][pid]
@@ -344,7 +370,7 @@ class Rule:
         self.violate(f"anchor-missing/{what}", f"rule cannot be evaluated: anchor `{what}` not found in the current tree (fail closed)")
 
     def finish(self):
-        if self.instances < self.floor:
+        if self.instances < self.floor and not ALT_MODE:  # floors are calibrated for the default configuration
             self.violate("floor", f"rule lost its instances: examined {self.instances} < floor {self.floor} (confirmed by hand on the pinned tree)")
         return self
 
@@ -360,8 +386,15 @@ def load_known():
 def finish(pid, level, rules, t0, tier, explanation, assumptions, extra_cov=None, checker_cmd=None, trusted_base=None):
     """Write evidence, print VIOLATION / KNOWN-FINDING lines, return exit code."""
     if CONTROL_MODE:
-        # positive-control run on overlaid facts: report which rules fired, no side effects
-        return sorted({r.id for r in rules if r.violations})
+        # dry run (positive control on overlaid facts / alternative build configuration): no side effects
+        return [v for r in rules for v in r.violations]
+    if ALT_RESULTS:
+        ac = Rule("CFG", "thorough tier: the same rules evaluated on the facts of alternative build configurations (overflow checks and debug assertions off) reach the same verdict", floor=1)
+        for a in ALT_RESULTS:
+            ac.examined(a["config"], True, {"config": a["config"], "violations": len(a["violations"])})
+            for v in a["violations"]:
+                ac.violate(f"{a['config']}/{v.key}", f"[configuration {a['config']}] {v.msg}", where=v.where, detail=v.detail)
+        rules = list(rules) + [ac.finish()]
     if CONTROL_RESULTS:
         pc = Rule("PC", "positive controls: recorded facts of code known to violate a rule (reverse patches of repaired defects, seeded changes) are overlaid on the current facts and the rule must flag them", floor=1)
         for c in CONTROL_RESULTS:
